@@ -203,7 +203,7 @@ CLAIMED = {
                 'The trace sentence - the output of a whole search is what the reference depth-first search writes, in execution order - is a whole-history statement and is checked BOUNDED only: '
                 '2000 random programs per seed against a reference interpreter (c04_prog).',
         'note': 'Trusted: the cutting specification of str::split (T3, spec/print.rs: at least one piece; uninterpreted otherwise), Display of a term uninterpreted, heap model (T8) for the output events, R10 wrappers for String += and ToString, R16 (print!). '
-                'The acyclic bindings next_solution_print / next_solution_print_list require are PROVED at the solver\'s call sites (unit solver_wf, C08 8.37). format_slist is PROVED on its verbatim body (unit slist, 8.49): the text of a list is the text of its elements through bound tail variables, separated by ", "; print_list sees it as a function of the list and the bindings (T10).',
+                'The acyclic bindings next_solution_print / next_solution_print_list require are PROVED at the solver\'s call sites (unit solver_wf, C08 8.37). format_slist is PROVED on its verbatim body (unit slist, 8.49): the text of a list is the text of its elements through bound tail variables, separated by ", "; the text print_list speaks of (fmt_slist) is defined as exactly that and format_slist is proved to return it; only for a list that is its own tail is it an uninterpreted function of the arguments (T10).',
         'technique': 'contract-based deductive verification (Verus) of extracted real code (formatting and once-per-execution clauses) + bounded comparison of output traces with a reference interpreter',
         'design_ref': 'DESIGN.md 8.26, 8.35, 8.49',
     },
